@@ -93,24 +93,38 @@ TOKEN = rb"[!#$%&'*+\-.^_`|~0-9A-Za-z]+"
 
 
 def spec_host(data: bytes):
-    """Independent strict reader (RFC 9112 §2.1, §3, §5; RFC 9110 §5.6.3): request-line CRLF *(field-line CRLF) CRLF,
+    """Independent reader of the head as HTTP defines it and as mitmproxy's own HTTP/1 reader applies it (RFC 9112 §2.1-2.2,
+    §3, §5; RFC 9110 §5.6.3, §9.1): request-line = method SP request-target SP HTTP-version with method = token (ANY token);
+    lines end in CRLF or in a bare LF ("MAY recognize a single LF", which h11's ReceiveBuffer used by mitmproxy does);
     field-line = field-name ":" OWS field-value OWS, OWS = *(SP / HTAB), names case-insensitive; the FIRST Host field.
     -> ("incomplete",) | ("malformed",) | ("ok", value-bytes-or-None)"""
-    i = data.find(b"\r\n\r\n")
-    if i < 0:
+    m = re.search(rb"\n\r?\n", data)
+    if not m:
         return ("incomplete",)
-    lines = data[:i].split(b"\r\n")
-    # request-line; the method class is the one next_layer documents ("the first three bytes should be the HTTP verb, so A-Za-z")
-    if not re.fullmatch(rb"[A-Za-z]{3,}[!#$%&'*+\-.^_`|~0-9A-Za-z]* [^ \t\r\n]+ HTTP/\d\.\d", lines[0]):
+    head = data[:m.start()]
+    if head.endswith(b"\r"): head = head[:-1]
+    lines = re.split(rb"\r?\n", head)
+    if not re.fullmatch(TOKEN + rb" [^ \t\r\n]+ HTTP/\d\.\d", lines[0]):
         return ("malformed",)
     host = "absent"
     for ln in lines[1:]:
-        m = re.fullmatch(rb"(" + TOKEN + rb"):[ \t]*(.*?)[ \t]*", ln, re.S)
-        if not m or re.search(rb"[\x00-\x08\x0a-\x1f\x7f]", m.group(2)):
+        mm = re.fullmatch(rb"(" + TOKEN + rb"):[ \t]*(.*?)[ \t]*", ln, re.S)
+        if not mm or re.search(rb"[\x00-\x08\x0a-\x1f\x7f]", mm.group(2)):
             return ("malformed",)
-        if m.group(1).lower() == b"host" and host == "absent":
-            host = m.group(2)
+        if mm.group(1).lower() == b"host" and host == "absent":
+            host = mm.group(2)
     return ("ok", None if host in ("absent", b"") else host)
+
+
+def bare_lf_head(data: bytes) -> bool:
+    """F-C19d class: a line of the head (up to and including the blank line) ends in LF without CR"""
+    m = re.search(rb"\n\r?\n", data)
+    return bool(re.search(rb"(?<!\r)\n", data[:m.end()] if m else data))
+
+
+def odd_method(data: bytes) -> bool:
+    """F-C19c class: the method token does not start with three letters"""
+    return re.match(rb"[A-Za-z]{3}", data) is None and re.match(TOKEN + rb" ", data) is not None
 
 
 def req_line_pending(p: bytes) -> bool:
@@ -267,40 +281,47 @@ E2E_MODES = {"regular": ("regular", modes.HttpProxy), "transparent": ("transpare
 class Check(PropertyCheck):
     prop = "C19"
     design_ref = "§5 C19"
-    level_text = ("Lean theorems (13) over the model of NextLayer._ignore_connection/_get_host_header/_get_client_hello/_next_layer, "
+    level_text = ("Lean theorems (22) over the model of NextLayer._ignore_connection/_get_host_header/_get_client_hello/_next_layer, "
                   "NextLayer buffering+replay and the TCP/UDP relay, for ALL inputs: verdict_rule / allow_semantics / ignore_semantics "
                   "(the verdict is exactly the documented rule over the candidate host names; regex search is a parameter), "
-                  "candidates_cover_destinations (server address, peername, Host value, SNI are candidates), "
-                  "host_header_agrees_with_spec (the regex scanner = RFC 9112 field syntax on EVERY well-formed head: first Host "
-                  "field, name case-insensitive, any amount of SP/HTAB on both sides, any position, empty value = no host, any "
-                  "trailing bytes), host_header_prefix_stable / decision_prefix_stable / decision_seg_independent_partial (TCP: the "
-                  "verdict at the first deciding segment = verdict on the whole flight for EVERY segmentation once three bytes "
-                  "are there and the deciding prefix does not end inside the request line) with "
-                  "decision_seg_independent_counterexample for exactly that excluded class (finding F-C19b), ignored_is_passthrough "
-                  "(verdict ignore => the stack is the single relay layer, nothing terminates TLS or parses HTTP, no hook unless "
-                  "show_ignored_hosts; for EVERY event history: while the relay is active the bytes sent to each peer = all bytes "
-                  "received from the other, incl. those buffered before the decision and while connecting; before that nothing is "
-                  "sent and everything is still queued in order), not_excluded_is_intercepted / passthrough_only_if_excluded, "
-                  "tls_ignore_passthrough (ClientTLSLayer ignore_connection branch, any segmentation). Model tied to the code at unit "
-                  "level (three functions + stack class over all modes/schemes/options) and end to end through world.py with the "
-                  "real NextLayer addon in regular-CONNECT, transparent (tcp+udp), reverse and SOCKS5 mode, eager and lazy "
-                  "connection strategy (stack class + per-step opens, bytes to both peers, closes, tcp_*/udp_* hooks).")
+                  "candidates_cover_destinations; host_header_agrees_with_spec (regex scanner = RFC 9112 field syntax on EVERY "
+                  "well-formed CRLF head: first Host field, name case-insensitive, any SP/HTAB on both sides, any position, empty "
+                  "value = no host, any trailing bytes) with host_header_any_method_partial (every token method starting with three "
+                  "letters, any target) / _counterexample (F-C19c) and host_header_eol_partial / host_header_bare_lf_counterexample "
+                  "(F-C19d); host_header_prefix_stable / decision_prefix_stable / decision_seg_independent_partial (TCP: verdict at "
+                  "the first deciding segment = verdict on the whole flight for EVERY segmentation once three bytes are there and "
+                  "the deciding prefix does not end inside the request line) / _counterexample (F-C19b); datagram transports: "
+                  "datagram_decision_local (later datagrams are never consulted), dtls_decision_prefix_stable, "
+                  "dtls_decision_seg_independent (a DTLS first flight spread over datagrams gets the verdict of the whole); "
+                  "ignored_is_passthrough (verdict ignore => single relay layer, nothing terminates TLS or parses HTTP, no hook unless "
+                  "show_ignored_hosts; for EVERY event history: relay active => bytes sent to each peer = all bytes received from "
+                  "the other incl. those buffered before the decision and while connecting; before that everything is queued in "
+                  "order) and ignored_is_passthrough_to_the_end (every admissible history that ends with the relay finished: "
+                  "everything received before, between and after the half-closes was delivered in order exactly once, both sides "
+                  "unreadable) with half_close_propagation (EOF -> half-close of the other side once, full close when neither side "
+                  "is readable); not_excluded_is_intercepted / passthrough_only_if_excluded; tls_ignore_passthrough. Model tied to "
+                  "the code at unit level (three functions + stack class over all modes/schemes/options) and end to end through "
+                  "world.py with the real NextLayer addon in regular-CONNECT, transparent (tcp+udp), reverse and SOCKS5 mode, eager "
+                  "and lazy connection strategy (stack class + per-step opens, bytes to both peers, closes, tcp_*/udp_* hooks).")
     level_note = ("trusted: Lean kernel; hand model tied differentially (validated, not verified). Parameters instantiated in the tie: "
                   "Python re.search (driver uses literal patterns with optional ^/$ anchors, IGNORECASE, ASCII; first flights "
                   "containing non-ASCII text that really decodes are skipped because str case folding and \\d are modelled for ASCII "
                   "only), check.is_valid_host (real function), QUIC ClientHello extraction (real function; exercised, not modelled). "
-                  "ClientHello parsing is Model/C13 (its theorem prefix_stable is imported). PARTIAL: decision_seg_independent holds "
-                  "only outside F-C19b (first segment ends inside the request line => Host header not consulted; recorded finding, "
-                  "full statement DecisionSegIndependent kept, partial + counterexample proved); the segmentation theorems are for TCP "
-                  "(UDP datagram boundaries and QUIC are tie-only). Stream equality is proved for histories whose final phase is "
-                  "relay (and in queued form for undecided/connecting); a history ending in `done` satisfied it up to the closing "
-                  "event (same theorem on the prefix), later events are swallowed by TCPLayer.done in code and model alike; a failed "
-                  "connect or a client that closes before any verdict relays nothing. The spec side of the Host header requires CRLF "
-                  "line ends, the request line first (no leading empty line) and a method starting with three letters, as "
-                  "next_layer documents; heads using bare LF never produce a verdict in code and model alike. Hook completion is "
-                  "immediate in the tie (events arriving while the next_layer hook is pending are C04's subject). Inside a CONNECT "
-                  "tunnel close events are not driven (HttpStream turns the relay's half-close into a full close: C29's subject). "
-                  "TLS interception after a 'not excluded' verdict is observed up to the stack class.")
+                  "ClientHello parsing is Model/C13 (its theorem prefix_stable is imported). PARTIAL, each with the full statement "
+                  "kept, a partial theorem and a proved counterexample: F-C19b (DecisionSegIndependent: first segment ends inside "
+                  "the request line), F-C19c (HostHeaderAgreesAnyMethod: method token not starting with three letters, e.g. "
+                  "M-SEARCH), F-C19d (HostHeaderAgreesBareLf: bare-LF line ends - no verdict is ever taken). The segmentation clause "
+                  "is claimed for TCP; for datagram transports boundaries are chosen by the sender and preserved (no network "
+                  "re-segmentation) and _starts_like_quic looks at the size of what arrived, so different datagram sequences are "
+                  "different inputs (shown by an evaluated example); what remains is proved (datagram_decision_local, dtls_*), QUIC "
+                  "parsing itself is a parameter. ignored_is_passthrough_to_the_end assumes an admissible history (data/EOF only "
+                  "from a readable connection, connect result only while awaited) and, for UDP, that the association does not end "
+                  "before the relay is active (then there is nowhere to relay to; UDPLayer.done swallows later datagrams in code "
+                  "and model alike); a failed connect or a client that closes before any verdict relays nothing. The spec side "
+                  "requires the request line first (no leading empty line). Hook completion is immediate in the tie (events "
+                  "arriving while the next_layer hook is pending are C04's subject). Inside a CONNECT tunnel close events are not "
+                  "driven (HttpStream turns the relay's half-close into a full close: C29's subject). TLS interception after a "
+                  "'not excluded' verdict is observed up to the stack class.")
     technique = "Lean 4 proof (induction over bytes/events, invariants) + unit-level and end-to-end differential correspondence (world.py, real NextLayer addon)"
     rule = ("hh: request heads built from (request line x Host spelling: name case, 0/1/many SP/HTAB before and after, position "
             "among other fields, absent, empty, duplicate) incl. every prefix of short heads, single-byte mutants and raw bytes; "
@@ -337,7 +358,7 @@ class Check(PropertyCheck):
     # ================================================================================ generator
     HOSTS = ["example.com", "Example.COM", "sub.example.com", "example.org", "192.0.2.7", "2001:db8::1", "localhost", "xn--bcher-kva.example"]
     REQLINES = [b"GET / HTTP/1.1", b"POST /x?y=1 HTTP/1.0", b"OPTIONS * HTTP/1.1", b"get / http/1.1", b"GET http://abs.example/p HTTP/1.1",
-                b"DELETE /a%20b HTTP/1.1"]
+                b"DELETE /a%20b HTTP/1.1", b"BASELINE-CONTROL /x HTTP/1.1", b"M-SEARCH * HTTP/1.1", b"XY / HTTP/1.1", b"X-1 /a HTTP/1.1"]
     NAMES = [b"Host", b"host", b"HOST", b"hOsT"]
     OWS = [b"", b" ", b"\t", b"  ", b" \t ", b"\t\t"]
     OTHER = [b"X-A: b", b"Accept: */*", b"X-Host: decoy.example", b"Hostx: q.example", b"User-Agent: Host: evil.example",
@@ -368,7 +389,13 @@ class Check(PropertyCheck):
         elif mode == "empty":
             lines.append(rng.pick(self.NAMES) + b":" + rng.pick(self.OWS))
         for _ in range(na): lines.append(rng.pick(self.OTHER))
-        return b"\r\n".join(lines) + b"\r\n\r\n"
+        d = b"\r\n".join(lines) + b"\r\n\r\n"
+        r = rng.random()
+        if r < 0.06: d = d.replace(b"\r\n", b"\n")                       # bare LF throughout (RFC 9112 §2.2 MAY)
+        elif r < 0.10:
+            i = rng.randrange(d.count(b"\r\n")); parts = d.split(b"\r\n")
+            d = b"\r\n".join(parts[:i + 1]) + b"\n" + b"\r\n".join(parts[i + 1:])   # a single bare LF
+        return d
 
     def host_value(self, rng):
         h = rng.pick(self.HOSTS)
@@ -857,9 +884,17 @@ class Check(PropertyCheck):
         return fails
 
     def known(self, case, obs, failure):
+        k = case["kind"]
         if failure.startswith("seg-dependent:"):
-            if case["kind"] == "hh" and req_line_pending(unhx(case["dc_hex"])): return "F-C19b"
-            if case["kind"] == "e2e" and "inside the request line" in failure: return "F-C19b"
+            if k == "hh" and req_line_pending(unhx(case["dc_hex"])): return "F-C19b"
+            if k == "e2e" and "inside the request line" in failure: return "F-C19b"
+        if failure.startswith(("host:", "seg-dependent:", "verdict:")):
+            data = unhx(case["full_hex"]) if k == "hh" else unhx(case["dc_hex"]) if k in ("ig", "nl") else \
+                b"".join(unhx(x) for x in case["flight"]) if k == "e2e" else b""
+            if k in ("ig", "nl", "e2e") and not case["cfg"]["tcp"]: return None
+            if data[:1].isalpha() or odd_method(data):
+                if spec_host(data)[0] == "ok" and bare_lf_head(data): return "F-C19d"
+                if spec_host(data)[0] == "ok" and odd_method(data): return "F-C19c"
         return None
 
     # ================================================================================ model tie
